@@ -16,7 +16,7 @@ Not decided: real-world correctness of the table's offsets; 12:xx am/pm (exclude
 import re
 
 from ..facts import render, strip, walk, fn_key, AnchorLost, alternatives, cond_str, short
-from ..common import result_alternatives
+from ..common import result_alternatives, canon_field_reads
 from ..evalint import try_ev, ev, Unknown
 from .. import model
 from . import C09
@@ -110,7 +110,7 @@ def z1_protocol(ctx):
     oks = [(inner, conds) for v, inner, conds in result_alternatives(b) if v == 'Ok']
     if len(oks) != 1 or oks[0][0][0] != 'aggr' or oks[0][0][1] != 'types::TokenType::Time':
         raise AnchorLost('time_with_timezone: expected one Ok(Time(..)) result')
-    inner = oks[0][0]
+    inner = canon_field_reads(oks[0][0])
     sg = zsig(inner[2][0])
     cur = r'east\(\(get_time\(\'time\', fields\)\.1\.offset Mul 60\)\)'
     tgt = r'east\(\(get_timezone\(\'timezone\', fields\)\.1 Mul 60\)\)'
@@ -140,6 +140,7 @@ def z1_protocol(ctx):
         if inner[0] != 'aggr':
             ctx.finding('Z1', 'convert_timezone/result', "'.. to ZONE' yields %s" % render(inner)[:60], site=b.loc)
             continue
+        inner = canon_field_reads(inner)
         kind = inner[1].rsplit('::', 1)[1]
         val, zone = render(inner[2][0]), render(inner[2][1])
         getter = {'Time': 'get_time', 'Date': 'get_date', 'DateTime': 'get_date_time'}.get(kind)
@@ -171,7 +172,7 @@ def z2_east_sites(ctx):
             n += 1
             ctx.fn(b)
             name = t['callee']['path'].rsplit('::', 1)[1]
-            e = b.expr(t['args'][0])
+            e = canon_field_reads(b.expr(t['args'][0]))
             sg = zsig(e)
             if name.startswith('west'):
                 ctx.finding('Z2', '%s/west' % fn_key(b.path), '%s builds its zone with FixedOffset::%s: offsets of the table are minutes east of Greenwich' % (fn_key(b.path), name), site=t['loc'])
